@@ -139,8 +139,9 @@ AtPoint(P(_)) == phase = "point" => \A t \in FloatTypes : P(t)
 (* the exact inverse is accepted, whatever the order of the logged variates *)
 P1(t) == Std(t, ExactV, Out) = "ok" /\ Std(t, Rot(ExactV), Out) = "ok" /\ Std(t, Rot(Rot(ExactV)), Out) = "ok"
 (* the coordinate-uniform sampler (height = r1, saturation = r2) is rejected wherever it differs *)
-P2(t) == Detectable => /\ Std(t, CoordV, Out) = "not-volume-uniform"
-                       /\ Verdict("standard", NodeOf, t, 0, <<>>, <<>>, {CoordV, Rot(CoordV)}, Out) = "not-volume-uniform"
+Rejected == {"not-volume-uniform", "hue-not-uniform-on-arc"}    \* the latter when only the hue is left without a variate
+P2(t) == Detectable => /\ Std(t, CoordV, Out) \in Rejected
+                       /\ Verdict("standard", NodeOf, t, 0, <<>>, <<>>, {CoordV, Rot(CoordV)}, Out) \in Rejected
 (* either candidate list of variates may be the one that fits *)
 P3(t) == Verdict("standard", NodeOf, t, 0, <<>>, <<>>, {CoordV, ExactV}, Out) = "ok"
 (* a hue a quarter turn off (the HWB form of value 0 has no saturation, which frees a variate) *)
